@@ -32,7 +32,7 @@ func TestMain(m *testing.M) {
 
 var tokens = []string{"tk0", "tk1", "tk2", "tk3", "svc.tk4.lat", "tk5-x_y"}
 var tokenRe = regexp.MustCompile(`(^|\.)(tk[0-9])(\.|-|$)`)
-var tagPool = []string{"env:prod", "region:us-east", "svc:web/api", "k.dot:v_1", "ver:42", "flag"}
+var tagPool = []string{"env:prod", "region:us-east", "svc:web/api", "k.dot:v_1", "ver:42", "flag", "window:12:30", "up:db:5432/x"}
 var hosts = []string{"", "h1"}
 
 type ident struct {
@@ -443,7 +443,11 @@ func TestPayloadsCarryEverySeriesOnce(t *testing.T) {
 			send(t, kit, gen.CopyMap(mm))
 			tagsMode := name == "graphite/tags"
 			var stream []byte
-			waitQuiet(kit.Loop)
+			// the sender closes its connection when stopped; the listener has the whole stream once it has read to EOF
+			kit.Stop()
+			if !mm.IsEmpty() && !kit.Loop.WaitEOF(30*time.Second) {
+				vt.Fail(t, "C17:no-callback:"+name, "%s: the connection carrying the flush was not closed within 30s after the backend stopped (%s)", name, desc)
+			}
 			for _, ch := range kit.Loop.Snapshot() {
 				stream = append(stream, ch...)
 			}
@@ -473,23 +477,6 @@ func TestPayloadsCarryEverySeriesOnce(t *testing.T) {
 		}
 		ev.C().Case(desc, nt, labels...)
 	})
-}
-
-// waitQuiet waits until the loopback listener has not received anything for a short while after the callback
-// (the sender invokes the callback after the last write returned; the listener goroutine may still be reading).
-func waitQuiet(l *fakes.Loopback) {
-	last := -1
-	for i := 0; i < 2000; i++ {
-		n := l.Total()
-		if n == last && n > 0 {
-			return
-		}
-		if n == 0 && i > 40 {
-			return
-		}
-		last = n
-		time.Sleep(500 * time.Microsecond)
-	}
 }
 
 // ---------- the statsd relay parses back under gostatsd's own parser ----------
@@ -572,7 +559,14 @@ func TestRelayRoundTrip(t *testing.T) {
 				lines += len(s.Values)
 			}
 		})
-		// wait until the listener has everything the sender wrote
+		// wait until the listener has everything the sender wrote: a TCP stream is complete at EOF (the stopped sender
+		// closes it), datagrams are counted
+		if kit.Variant.Socket != "udp" && lines > 0 {
+			kit.Stop()
+			if !kit.Loop.WaitEOF(30 * time.Second) {
+				vt.Fail(t, "C17:relay-roundtrip", "the relay's connection was not closed within 30s after the backend stopped (%s)", desc)
+			}
+		}
 		deadline := time.Now().Add(30 * time.Second)
 		var got model.Agg
 		for {
